@@ -358,6 +358,7 @@ def oracle(case, obs, part, book=None):
     recs = []
     ref = {}        # addr -> list of bytes (None = unspecified)
     inj = {}        # addr -> injection mask in effect when the word was stored
+    stored = {}     # addr -> lanes that hold a code word (written at least once); the rest is uninitialised memory
     is_be = part.startswith("be")
 
     def F(clause, key, what, repro):
@@ -390,6 +391,7 @@ def oracle(case, obs, part, book=None):
                     lbe = (be >> (ln * lb)) & lfull
                     if lbe == 0:
                         continue
+                    stored.setdefault(addr, set()).add(ln)
                     for b in range(lb):
                         bi = ln * lb + b
                         cur[bi] = ((data >> (8 * bi)) & 0xff) if (lbe >> b) & 1 else None
@@ -452,8 +454,8 @@ def oracle(case, obs, part, book=None):
                 raise HarnessError("flip plan out of step")
             eff = mask ^ inj.get(addr, 0)
             cur = ref.get(addr)
-            if cur is None:
-                raise HarnessError("generated case reads an address never written")
+            if cur is None or len(stored.get(addr, ())) < bc:
+                raise HarnessError("generated case reads a word with never-written lanes (uninitialised memory is not a code word)")
             nsingle = npar = ndouble = 0
             lanes_c = []
             for ln in range(bc):
@@ -657,7 +659,9 @@ def make_batch(cfg, tier, key, b, pool, items=None):
                 ops.append(rd(a, gap=gaps[(j + 1) % len(gaps)] if j % 7 == 3 else 0))
                 flips.append(mask)
                 j += 1
-        return dict(cfg=cfg, part="secded", segs=[dict(ops=ops, flips=flips, inject=0)], slave=pe["slave"], wait_reads=pe["wait_reads"])
+        slow = (b % 4 == 0)       # every fourth batch with the generated stall / latency schedules, the others fully pipelined
+        return dict(cfg=cfg, part="secded", segs=[dict(ops=ops, flips=flips, inject=0)], slave=pe["slave"] if slow else DEFAULT_SLAVE,
+                    wait_reads=bool(pe["wait_reads"] and slow))
     # device's own injection: one segment per mask (the mask is in effect while the words are stored)
     masks = inject_masks()[(b - nflip) * 12:(b - nflip + 1) * 12]
     segs = []
@@ -693,6 +697,78 @@ def minimal_cases(case, f):
                                 slave=DEFAULT_SLAVE, wait_reads=False))
     out.append(case)
     return out
+
+
+def ddmin_case(case, fails, budget=120):
+    """bounded greedy removal of operations (flip masks stay attached to their reads), then stalls/gaps/data simplification;
+    fails(trial) -> True when the clause still shows.  A smaller budget means a less minimal replay, never a changed verdict."""
+    import copy
+    n = [0]
+
+    def attach(c):
+        out = []
+        for seg in c["segs"]:
+            r = 0
+            prs = []
+            for op in seg["ops"]:
+                if op["we"]:
+                    prs.append((op, None))
+                else:
+                    prs.append((op, seg["flips"][r]))
+                    r += 1
+            out.append(prs)
+        return out
+
+    def detach(c, segs_pairs):
+        d = dict(c)
+        d["segs"] = [dict(ops=[copy.deepcopy(p[0]) for p in prs], flips=[p[1] for p in prs if not p[0]["we"]], inject=seg.get("inject", 0))
+                     for prs, seg in zip(segs_pairs, c["segs"]) if prs]
+        return d
+
+    def ok(trial):
+        if n[0] >= budget or not trial["segs"]:
+            return False
+        n[0] += 1
+        try:
+            return fails(trial)
+        except HarnessError:
+            return False
+
+    cur = case
+    pairs = attach(cur)
+    for si in range(len(pairs)):
+        chunk = max(1, len(pairs[si]) // 2)
+        while chunk >= 1:
+            i = 0
+            while i < len(pairs[si]):
+                trial_pairs = [list(x) for x in pairs]
+                del trial_pairs[si][i:i + chunk]
+                trial = detach(cur, trial_pairs)
+                # segments may have been dropped by detach: keep the inject values aligned
+                trial["segs"] = [dict(ops=[copy.deepcopy(p[0]) for p in prs], flips=[p[1] for p in prs if not p[0]["we"]], inject=cur["segs"][k].get("inject", 0))
+                                 for k, prs in enumerate(trial_pairs) if prs]
+                if ok(trial):
+                    pairs = trial_pairs
+                else:
+                    i += chunk
+            chunk //= 2
+    cur = dict(cur)
+    cur["segs"] = [dict(ops=[copy.deepcopy(p[0]) for p in prs], flips=[p[1] for p in prs if not p[0]["we"]], inject=case["segs"][k].get("inject", 0))
+                   for k, prs in enumerate(pairs) if prs]
+    for simpler in (dict(slave=DEFAULT_SLAVE, wait_reads=False),):
+        trial = dict(cur)
+        trial.update(simpler)
+        if ok(trial):
+            cur = trial
+    for si, seg in enumerate(cur["segs"]):
+        for oi, op in enumerate(seg["ops"]):
+            for fld, val in (("gap", 0), ("lead", 0), ("data", 0)):
+                if op.get(fld):
+                    trial = copy.deepcopy(cur)
+                    trial["segs"][si]["ops"][oi][fld] = val
+                    if ok(trial):
+                        cur = trial
+    return cur
 
 
 # ---------------------------------------------------------------------------------------------------
@@ -956,6 +1032,12 @@ class Recorder:
                     break
             if chosen is None:
                 raise HarnessError("finding %s does not reproduce when its case is evaluated again" % clause)
+            if chosen is case:
+                def fails(trial, clause=clause, part=part):
+                    o2 = evaluate(trial, "fast")
+                    f4, _ = oracle(trial, o2, part, book=secded.CodeBook(trial["cfg"][0]))
+                    return any(x["clause"] == clause for x in quiet_filter(self.col, f4))
+                chosen = ddmin_case(case, fails)
             obs = evaluate(chosen, "migen")
             f3, _ = oracle(chosen, obs, part, book=secded.CodeBook(chosen["cfg"][0]))
             f3 = [x for x in quiet_filter(self.col, f3) if x["clause"] == clause]
@@ -993,8 +1075,15 @@ def run_flip_shard(sh):
         for b in range(b0, b1):
             case = make_batch(cfg, tier, key, b, pool, items)
             if first:
-                diff_case(shrink_for_diff(case, tier), col)
                 first = False
+                if tier == "quick" and cfg[0] * cfg[1] > 256:
+                    # stock migen.sim needs ~0.6 s per cycle on the 8 x 64-bit device: the quick tier compares the simulators on the
+                    # same lane logic with 2 lanes, the thorough tier on the configuration itself
+                    small = [cfg[0], 2, cfg[2]]
+                    spool = draw_examples(pool_entry(small, nd), 2, sh["seed"] * 100 + 99)
+                    diff_case(shrink_for_diff(make_batch(small, tier, key, 0, spool), tier), col)
+                else:
+                    diff_case(shrink_for_diff(case, tier), col)
             obs = evaluate(case, "fast")
             fs, recs = oracle(case, obs, "secded", book=book)
             account(col, recs)
@@ -1019,7 +1108,11 @@ def run_hyp_shard(sh):
     cfgs = all_cfgs(tier)
     # generated traffic: keep the expensive 8 x 64 configurations rare
     cheap = [c for c in cfgs if c[0] * c[1] <= 256]
-    pick = cheap + cheap + cfgs
+    big = [c for c in cfgs if c[0] * c[1] > 256]
+    if tier == "quick":
+        pick = cheap + cheap + cheap + [big[sh["idx"] % len(big)]]
+    else:
+        pick = cheap + cheap + cfgs
     kind = sh["kind"]
     books = {}
     state = dict(first=True)
